@@ -174,7 +174,8 @@ PROPS = {
     "C19": dict(
         prefixes=["c19_", "c01_write_bits", "c01_write_unary", "c03_w_", "c08_copy", "c12_write"],
         builds={
-            "quick": [("checks", ["checks"], None, r"^c19_|^c01_write_bits_(be_u8|le_u64|be_u128)|^c01_write_unary_le_u16|^c03_w_(gamma|gamma_tab|delta_tab|omega|pi|rice|expgolomb|minbin|vbytebe)_be|^c03_w_(zeta3_tab|omega|golomb)_le|^c08_copy_to_(be_u32|le_u64)|^c08_copy_from_(le_u16|be_u64)|^c12_write_(be_u16|le_u128)")],
+            "quick": [("checks", ["checks"], None, r"^c19_|^c01_write_bits_(be_u8|le_u64|be_u128)|^c01_write_unary_le_u16|^c03_w_(gamma|gamma_tab|delta_tab|omega|pi|rice|expgolomb|minbin|vbytebe)_be|^c03_w_(zeta3_tab|omega|golomb)_le|^c08_copy_to_(be_u32|le_u64)|^c08_copy_from_(le_u16|be_u64)|^c12_write_(be_u16|le_u128)"),
+                      ("no_copy_impls", ["no_copy_impls"], ["c08_"], r"^c08_copy_to_le_u16$|^c08_copy_from_le_u16$")],
             "thorough": [("checks", ["checks"]),
                          ("no_copy_impls", ["no_copy_impls"], ["c08_", "c01_write_bits"], r"^c08_|^c01_write_bits_(be_u64|le_u8)"),
                          ("checks+no_copy_impls", ["checks", "no_copy_impls"], ["c08_", "c19_"])],
